@@ -47,8 +47,9 @@ var c07Seq atomic.Int64
 // run while a flush is "in" storage) and can be switched to fail.
 type faultStore struct {
 	*hx.MemBackend
-	mu   sync.Mutex
-	fail bool
+	mu     sync.Mutex
+	fail   bool
+	failed int // storage writes that returned an error (injected outage or cancelled context)
 }
 
 func (f *faultStore) Write(ctx context.Context, path string, data []byte) error {
@@ -57,10 +58,18 @@ func (f *faultStore) Write(ctx context.Context, path string, data []byte) error 
 	bad := f.fail
 	f.mu.Unlock()
 	if bad {
+		f.noteFailed()
 		return hx.ErrInjected
+	}
+	// like the real backends (S3 SDK, Azure, os-level writes under a deadline) the store honours its
+	// context: a write that is still in storage when the buffer is closed fails with ctx.Err()
+	if err := ctx.Err(); err != nil {
+		f.noteFailed()
+		return err
 	}
 	return f.MemBackend.Write(ctx, path, data)
 }
+func (f *faultStore) noteFailed() { f.mu.Lock(); f.failed++; f.mu.Unlock() }
 func (f *faultStore) set(b bool) { f.mu.Lock(); f.fail = b; f.mu.Unlock() }
 
 const c07Hour = int64(3600) * 1_000_000
@@ -296,7 +305,17 @@ func c07Scenarios() []sched.Scenario {
 				case strings.Contains(d, "extra=[]"):
 					cls = "acknowledged-rows-lost"
 				}
-				return sched.Outcome{Key: key, Violation: cls, Detail: map[string]any{"diff": d, "files": paths}}
+				// the class names whether any storage write failed in this run (ground truth from the store):
+				// loss/duplication WITHOUT a failed write is a different defect from one in the failure-recovery path
+				store.mu.Lock()
+				nf := store.failed
+				store.mu.Unlock()
+				if nf > 0 {
+					cls += "(after-failed-storage-write)"
+				} else {
+					cls += "(no-storage-write-failed)"
+				}
+				return sched.Outcome{Key: key, Violation: cls, Detail: map[string]any{"diff": d, "files": paths, "failed_storage_writes": nf}}
 			}
 			return body, check, func() { os.RemoveAll(dir) }
 		}})
